@@ -269,6 +269,9 @@ func sxValue(n *sx) (*big.Int, error) {
 	return nil, fmt.Errorf("unsupported value form")
 }
 
+// ParseValues parses the answer of (get-value (...)) into res.
+func ParseValues(txt string, res map[string]*big.Int) error { return parseValues(txt, res) }
+
 func parseValues(txt string, res map[string]*big.Int) error {
 	pos := 0
 	n, err := parseSx(txt, &pos)
